@@ -92,12 +92,14 @@ LitS(n, d, s) == [t |-> "lit", m |-> <<n, d>>, sfx |-> s]
 Bin(o, a, b)  == [t |-> "bin", op |-> o, l |-> a, r |-> b]
 Par(a)        == [t |-> "par", e |-> a]
 Neg(a)        == [t |-> "neg", e |-> a]
+Pos(a)        == [t |-> "pos", e |-> a]      \* the other sign prefix: `+` leaves its operand as it is
 
 RECURSIVE TreeValue(_)
 TreeValue(e) ==
   CASE e.t = "lit" -> Norm(<<e.m[1], e.m[2], SuffixExp(e.sfx)>>)
     [] e.t = "par" -> TreeValue(e.e)
     [] e.t = "neg" -> QNeg(TreeValue(e.e))
+    [] e.t = "pos" -> TreeValue(e.e)
     [] e.t = "bin" -> Apply(e.op, TreeValue(e.l), TreeValue(e.r))
 
 Prec(o) == IF o \in {"*", "/"} THEN 2 ELSE 1
@@ -112,6 +114,7 @@ Unparse(e, p, right) ==
     [] e.t = "par" -> <<TLp>> \o Unparse(e.e, 0, FALSE) \o <<TRp>>
     [] e.t = "neg" -> \* a sign prefix binds tighter than any operator: its operand needs parentheses unless primary
                       <<TOp("-")>> \o Unparse(e.e, 3, FALSE)
+    [] e.t = "pos" -> <<TOp("+")>> \o Unparse(e.e, 3, FALSE)
     [] e.t = "bin" ->
          LET need  == Prec(e.op) < p \/ (right /\ Prec(e.op) = p)
              inner == Unparse(e.l, Prec(e.op), FALSE) \o <<TOp(e.op)>> \o Unparse(e.r, Prec(e.op), TRUE)
@@ -123,5 +126,6 @@ UnparseFull(e) ==
   CASE e.t = "lit" -> <<[k |-> "num", m |-> e.m, sfx |-> e.sfx]>>
     [] e.t = "par" -> <<TLp>> \o UnparseFull(e.e) \o <<TRp>>
     [] e.t = "neg" -> <<TOp("-"), TLp>> \o UnparseFull(e.e) \o <<TRp>>
+    [] e.t = "pos" -> <<TOp("+"), TLp>> \o UnparseFull(e.e) \o <<TRp>>
     [] e.t = "bin" -> <<TLp>> \o UnparseFull(e.l) \o <<TOp(e.op)>> \o UnparseFull(e.r) \o <<TRp>>
 =============================================================================
